@@ -596,14 +596,17 @@ def vis_programs():
         add(vis("visible", v, cone=cone, egoface=face))
         add(vis("requireVisible", v, cone=cone, egoface=face))
     for v, size, place in itertools.product(VDS, VIS_SIZES, VIS_PLACES):
+        if size == "ball" and place != "in":
+            continue  # the spheroid mesh makes canSee very slow: default placement only
         add(vis("visible", v, size=size, place=place))
         add(vis("requireVisible", v, size=size, place=place))
     for c in ("visible-from-obs", "rv+obs"):
         for v, cone in itertools.product(VDS, CONES):
             add(vis(c, v, cone=cone, observer="random"))
-            add(vis(c, v, cone=cone, observer="fixed", size="ball"))
+            add(vis(c, v, cone=cone, observer="fixed", size="wide"))
     for v, size in itertools.product(VDS, VIS_SIZES):
-        add(vis3d(v, size))
+        if size != "ball" or v == "vd2":
+            add(vis3d(v, size))
     return list(out.values())
 
 
